@@ -2,14 +2,21 @@ package main
 
 import (
 	"log/slog"
+	"os"
 
 	"gitlab.com/gomidi/midi/v2"
 	_ "gitlab.com/gomidi/midi/v2/drivers/testdrv" // autoregisters driver
 )
 
 func main() {
+	os.Exit(run())
+}
+
+func run() int {
 	defer midi.CloseDriver()
 	if err := rootCmd.Execute(); err != nil {
 		slog.Error("Err", slog.Any("err", err))
+		return 1
 	}
+	return 0
 }
